@@ -234,6 +234,33 @@ impl Scenario for C17Encodings {
                 cx.fault_fired(f.name());
                 cx.event(&format!("{label} damaged by {}: {} bytes -> {}", f.name(), damaged.len(), if r { "Ok" } else { "Err" }));
             }
+
+            // ---- E3: included files go through the same decoder: a main file (in an encoding of its own) that consists
+            // of one /include directive naming the encoded document gives the same model as the decoded string
+            if !fragment && cx.tape.chance(1, 3) {
+                let (enc2, bom2, label2) = *cx.tape.pick(&ENCODINGS);
+                let directive = cx.tape.pick_str(&["/include \"enc.a2l\"\n", "/include enc.a2l\n", "\n/include \"enc.a2l\" ", "/include \"/work/enc.a2l\"\n"]);
+                let main_bytes = encode(directive, enc2, enc2 != Enc::Latin1 && bom2);
+                fs.put("/work/enc_main.a2l", &main_bytes);
+                fs.begin_op(BTreeMap::new(), false);
+                let got3 = sut::load_path(cx, "E3", "/work/enc_main.a2l", None, strict, bytes.len() + main_bytes.len())?.map(|(f, msgs)| (f, sut::diag_classes(&msgs)));
+                cx.probe("encoded-include-file");
+                match (&got3, &want) {
+                    (Ok(a), Ok(b)) => {
+                        let equal = guarded(cx, "no-panic", "model comparison", || Some(&a.0) == b.1.as_ref())?;
+                        if !equal {
+                            return Err(cx.fail("E3", "model-depends-on-encoding-of-include", format!("include file in {label} ({} bytes), main file in {label2}: loading through /include gives a different model than loading the decoded string: {}", bytes.len(), crate::c01::model_diff(b.1.as_ref().unwrap(), &a.0))));
+                        }
+                        if a.1 != b.2 {
+                            return Err(cx.fail("E3", "diagnostics-depend-on-encoding-of-include", format!("include file in {label}, main file in {label2}: {:?} vs {:?}", a.1, b.2)));
+                        }
+                    }
+                    (Err(_), Err(_)) => {}
+                    (Ok(_), Err(e)) => return Err(cx.fail("E3", "accepted-only-as-include", format!("include file in {label}, main file in {label2}: the string is rejected ({e}) but the file tree loads"))),
+                    (Err(e), Ok(_)) => return Err(cx.fail("E3", "rejected-only-as-include", format!("include file in {label} ({} bytes), main file in {label2}: the decoded string loads but the file tree does not: {e}", bytes.len()))),
+                }
+                cx.event(&format!("E3: include file in {label}, main file in {label2} ({directive:?}) -> equal to load_from_string"));
+            }
         }
         SimFs::uninstall();
         Ok(())
